@@ -1,6 +1,7 @@
 package c07
 
 import (
+	"strings"
 	"sync"
 	"sync/atomic"
 
@@ -105,8 +106,45 @@ func repoIsRange(t string) bool {
 }
 
 func repoSat(t, v string) bool {
+	if in, ok := intervalSat(t, v); ok {
+		return in
+	}
 	c, err := semver.Maven.ParseConstraint(t)
 	return err == nil && c.Match(v)
+}
+
+// intervalSat decides membership for one bracketed interval whose bounds and
+// candidate are all of the generator's single-digit "x.y" form, where string
+// order is version order. It is what answers for the texts Maven's own parser
+// refuses, such as "[1.0,1.0)" (identical boundaries): by interval arithmetic
+// those contain nothing, whatever the repository's parser makes of them.
+func intervalSat(t, v string) (in, ok bool) {
+	xy := func(s string) bool {
+		return len(s) == 3 && s[0] >= '0' && s[0] <= '9' && s[1] == '.' && s[2] >= '0' && s[2] <= '9'
+	}
+	if len(t) < 5 || !xy(v) {
+		return false, false
+	}
+	open, close := t[0], t[len(t)-1]
+	if (open != '[' && open != '(') || (close != ']' && close != ')') {
+		return false, false
+	}
+	body := t[1 : len(t)-1]
+	i := strings.IndexByte(body, ',')
+	if i < 0 || strings.IndexByte(body[i+1:], ',') >= 0 {
+		return false, false
+	}
+	lo, hi := body[:i], body[i+1:]
+	if (lo != "" && !xy(lo)) || (hi != "" && !xy(hi)) {
+		return false, false
+	}
+	if lo != "" && (v < lo || (v == lo && open == '(')) {
+		return false, true
+	}
+	if hi != "" && (v > hi || (v == hi && close == ')')) {
+		return false, true
+	}
+	return true, true
 }
 
 func (o *ranges) isRange(t string) bool {
